@@ -151,6 +151,7 @@ class CaseResult:
         self.complete = True
         self.sample = None
         self.nontrivial = False
+        self.notes = {}
 
     def to_dict(self):
         return self.__dict__
@@ -231,10 +232,9 @@ def run_case(body, spec, complex_=False, validate=False, max_paths=2000, seed=0,
             res.harness_errors.append("vacuous path: assumptions+path condition unsatisfiable")
             continue
         if S.structural:
-            for name, detail in S.structural:
-                _replay_and_record(res, body, spec, complex_, c, S, kind="structural",
-                                   name=name, detail=detail)
-            continue
+            _replay_structural(res, body, spec, complex_, c, S)
+            if not S.obl:
+                continue
         if S.obl:
             res.nontrivial = True
         res.obligations += len(S.obl)
@@ -278,6 +278,9 @@ def run_case(body, spec, complex_=False, validate=False, max_paths=2000, seed=0,
             n, f = S.obl[len(S.obl) // 2]
             res.sample = {"spec": _short(spec), "obligation": n, "formula": str(z3.simplify(f))[:300],
                           "n_obligations_on_path": len(S.obl), "decisions": len(p.decisions)}
+    for S_ in sessions:
+        for n in S_.notes:
+            res.notes[n] = res.notes.get(n, 0) + 1
     res.solver_s = time.time() - t0
     return res
 
@@ -351,6 +354,27 @@ def _replay_and_record(res, body, spec, complex_, c, S, kind, name, detail, valu
         res.violations.append(rec)
     else:
         res.harness_errors.append(f"non-reproducing {kind} counterexample {name} on {_short(spec)}")
+
+
+def _replay_structural(res, body, spec, complex_, c, S):
+    """one numeric replay for all structural violations of a path"""
+    values = {}
+    if S.varnames and c.solver.check() == z3.sat:
+        names = sorted(set(S.varnames))
+        m = _bounded_model(c.solver, z3.BoolVal(True), names) or c.solver.model()
+        values = _model_values(m, names)
+    failed, structural, err, Sn = replay_numeric(body, spec, complex_, values)
+    got = {n for n, _ in structural}
+    for name, detail in S.structural:
+        rec = {"body": getattr(body, "__name__", str(body)), "kind": "structural", "name": name, "detail": str(detail)[:1500],
+               "spec": spec, "values": values, "complex": complex_, "replay_failed": failed[:10],
+               "replay_structural": [list(x) for x in structural[:5]],
+               "replay_error": None if err is None else f"{type(err).__name__}: {err}",
+               "reproduced": name in got or err is not None}
+        if rec["reproduced"]:
+            res.violations.append(rec)
+        else:
+            res.harness_errors.append(f"non-reproducing structural counterexample {name} on {_short(spec)}")
 
 
 def _validate_backend(res, body, spec, complex_, c, S, seed):
